@@ -346,7 +346,9 @@ func main() {
 			walk(byName[rc.Lister], rc, func(k, m string) { s.Fail(k, m, rc) }, nil)
 			return
 		}
-		pool := []string{"a", "aa", "ab", "b", "a.", "A", "a/b", "é"}
+		// upper-case names order differently byte-wise and case-folded: a listing whose sort and whose
+		// page-token seek disagree about the order skips or repeats items
+		pool := []string{"a", "aa", "ab", "b", "a.", "A", "a/b", "é", "B", "Ab"}
 		var idSets [][]string
 		maxN := 5
 		if s.Thorough {
